@@ -525,6 +525,16 @@ def run(ctx):
                                      fails=[("moq %s . %s does not print what the library generates for the "
                                              "configuration these flags select" % (" ".join(o["flags"]), " ".join(o["args"])),
                                              "flag wiring")], families=[]))
+            if ctx.pid == "C16" and o["rc"] == 0:
+                # whatever the flags: what a successful run writes starts with the generated-code marker
+                written = o.get("out_after") if o.get("out") else o.get("stdout")
+                if written is not None and not written.startswith("// Code generated by moq; DO NOT EDIT.\n"):
+                    failures.append(dict(case=dict(case=dict(id=o["name"], args=o["args"], pkg="", stub=False, skip=False,
+                                                             resets=False, flags=o["flags"], out=o["out"], rm=o["rm"]),
+                                                   text=(written or "")[:400], facts={}, src={}),
+                                         fails=[("the first line of what moq %s%s wrote is not the generated-code marker: %r"
+                                                 % ("-rm " if o["rm"] else "", " ".join(o["flags"]), (written or "").split("\n")[0][:80]),
+                                                 "marker is not the first line")], families=[]))
             if ctx.pid == "C16" and o["rc"] == 0 and o.get("out_matches_ref") is False and "-fmt" not in o["flags"]:
                 failures.append(dict(case=dict(case=dict(id=o["name"], args=o["args"], pkg="", stub=False, skip=False,
                                                          resets=False, flags=o["flags"], out=o["out"], prior=o["prior"]),
